@@ -222,14 +222,76 @@ type vfIssue struct {
 }
 
 func (i *vfIssue) sig(cfg vfCfg) string {
-	q := i.Check
-	if i.Qual != "" {
-		q += "[" + i.Qual + "]"
+	cause := i.Cause
+	stripEnc := func() {
+		if strings.HasPrefix(cause, "importRoaring/") {
+			cause = strings.Join(strings.Split(cause, "/")[:2], "/")
+		}
 	}
-	return cfg.Kind + ":" + q + "<-" + i.Cause
+	switch {
+	case strings.HasPrefix(i.Check, "blocks"):
+		// cached-checksum handling does not depend on the fragment kind or the payload encoding
+		stripEnc()
+		s := cause + "->" + i.Check
+		if i.Qual != "" {
+			s += "[" + i.Qual + "]"
+		}
+		return s
+	case strings.HasPrefix(i.Check, "top-"):
+		// count-cache behaviour: cache type and "did the named rows ever exceed the slots" first, then the write
+		stripEnc()
+		return i.Check + "[" + i.Qual + "]<-" + cause + "@" + cfg.Kind
+	}
+	s := cause + "->" + i.Check
+	if i.Qual != "" {
+		s += "[" + i.Qual + "]"
+	}
+	return s + "@" + cfg.Kind
 }
 
 var vfSeq uint64
+
+var vfScratchDir string
+
+// vfScratch returns the directory for fragment files: the driver's per-worker
+// VERIF_SCRATCH, or (when the leg sets VERIF_FAST_SCRATCH to a tmpfs mount) a
+// private per-process directory there. These checks do thousands of
+// close/snapshot cycles per second and each one fsyncs; none of the properties
+// checked here is about durability.
+func vfScratch() string {
+	if vfScratchDir != "" {
+		return vfScratchDir
+	}
+	vfScratchDir = os.Getenv("VERIF_SCRATCH")
+	if vfScratchDir == "" {
+		vfScratchDir = os.TempDir()
+	}
+	if fast := os.Getenv("VERIF_FAST_SCRATCH"); fast != "" {
+		// sweep directories left behind by workers that died (crash findings, watchdog kills)
+		if old, err := filepath.Glob(filepath.Join(fast, "verif-scratch-*")); err == nil {
+			for _, o := range old {
+				var pid int
+				if _, err := fmt.Sscanf(filepath.Base(o), "verif-scratch-%d", &pid); err == nil && pid > 0 {
+					if _, err := os.Stat(fmt.Sprintf("/proc/%d", pid)); os.IsNotExist(err) {
+						os.RemoveAll(o)
+					}
+				}
+			}
+		}
+		d := filepath.Join(fast, fmt.Sprintf("verif-scratch-%d", os.Getpid()))
+		if err := os.MkdirAll(d, 0o755); err == nil {
+			vfScratchDir = d
+		}
+	}
+	return vfScratchDir
+}
+
+// vfScratchCleanup removes the private tmpfs directory (no-op otherwise).
+func vfScratchCleanup() {
+	if fast := os.Getenv("VERIF_FAST_SCRATCH"); fast != "" && strings.HasPrefix(vfScratchDir, fast) && strings.Contains(vfScratchDir, "verif-scratch-") {
+		os.RemoveAll(vfScratchDir)
+	}
+}
 
 // vfH is one run of one history.
 type vfH struct {
@@ -241,12 +303,17 @@ type vfH struct {
 	q     chan *fragment
 	rec   *vk.Run // non-nil: record Eval/Cover (original run only, not shrink runs)
 	issue *vfIssue
+	soft  *vfIssue // first failure of a relaxed-oracle class; the run continues
 	at    int
+
+	lastEffCol  map[uint64]string // column -> descriptor of the last write that changed it in the model
+	clearedRows map[uint64]bool // rows named by a bit-clearing op so far (input-derived)
 
 	lastEff  map[uint64]string          // row -> descriptor of the last write that changed it in the model
 	blockEff map[int]map[string]struct{} // block -> descriptors of writes that changed it since the last Blocks()
+	blockLast map[int]string            // block -> descriptor of the last write that changed it in the model
 	allEff   string                     // last write that changed anything
-	maxRows  int                        // max number of non-empty rows seen so far (C12 qualifier)
+	named    map[uint64]bool            // rows named by any write so far (each may occupy a count-cache slot, even with count 0)
 	evals    int
 }
 
@@ -283,6 +350,20 @@ func (h *vfH) fail(check, qual, cause, msg string) {
 	}
 }
 
+// softFail records a failure the run can continue after (the model stays valid).
+func (h *vfH) softFail(check, qual, cause, msg string) {
+	if h.soft == nil {
+		if cause == "" {
+			cause = "none"
+		}
+		h.soft = &vfIssue{Check: check, Qual: qual, Cause: cause, Msg: msg, At: h.at}
+	}
+}
+
+// ghost reports whether row r holds no bit in the model but was named by a
+// bit-clearing write (clears leave empty containers behind).
+func (h *vfH) ghost(r uint64) bool { return h.clearedRows[r] && len(h.m.rows[r]) == 0 }
+
 func (h *vfH) eval(n int) {
 	h.evals += n
 	if h.rec != nil {
@@ -299,6 +380,7 @@ func (h *vfH) cover(c string) {
 // model mutation with effect tracking
 func (h *vfH) mset(r, c uint64, desc string) bool {
 	if h.m.set(r, c) {
+		h.lastEffCol[c] = desc
 		h.touched(r, desc)
 		return true
 	}
@@ -306,7 +388,11 @@ func (h *vfH) mset(r, c uint64, desc string) bool {
 }
 
 func (h *vfH) mclear(r, c uint64, desc string) bool {
+	if !strings.HasPrefix(desc, "setRow") && desc != "clearRow" {
+		h.clearedRows[r] = true // a bit-level clear was issued against this row
+	}
 	if h.m.clear(r, c) {
+		h.lastEffCol[c] = desc
 		h.touched(r, desc)
 		return true
 	}
@@ -321,9 +407,7 @@ func (h *vfH) touched(r uint64, desc string) {
 		h.blockEff[b] = map[string]struct{}{}
 	}
 	h.blockEff[b][desc] = struct{}{}
-	if n := len(h.m.rows); n > h.maxRows {
-		h.maxRows = n
-	}
+	h.blockLast[b] = desc
 }
 
 func (h *vfH) quiesce() {
@@ -350,13 +434,35 @@ func (h *vfH) rowQual(r uint64) string {
 	return ""
 }
 
+// causeOfDiff: for whole-fragment reads, the write that last changed (in the
+// model) the first row whose content differs.
+func (h *vfH) causeOfDiff(got, want []uint64) string {
+	i := 0
+	for i < len(got) && i < len(want) && got[i] == want[i] {
+		i++
+	}
+	var p uint64
+	switch {
+	case i < len(got) && (i >= len(want) || got[i] < want[i]):
+		p = got[i]
+	case i < len(want):
+		p = want[i]
+	default:
+		return h.allEffOr()
+	}
+	if d := h.lastEff[p/vfSW]; d != "" {
+		return d
+	}
+	return "none"
+}
+
 // ---------------------------------------------------------------- reads
 
 func (h *vfH) checkRow(r uint64) {
 	row := h.f.row(r)
 	got := row.Columns()
 	cnt := row.Count()
-	if !h.chk.Reads {
+	if !h.chk.Reads && !h.chk.Mutex {
 		return
 	}
 	want := h.m.rowCols(r)
@@ -405,6 +511,7 @@ func (h *vfH) checkValue(c uint64) {
 // checkRows compares fragment.rows(start, filters...) in one of the filter shapes.
 func (h *vfH) checkRows(op vfOp) {
 	var filters []rowFilter
+	var wantAll []uint64
 	want := []uint64{}
 	sel := append([]uint64(nil), op.Rows...)
 	for _, r := range h.m.rowIDs() {
@@ -430,9 +537,13 @@ func (h *vfH) checkRows(op vfOp) {
 	}
 	if strings.Contains(op.Enc, "limit") {
 		filters = append(filters, filterWithLimit(uint64(op.N)))
+		wantAll = append([]uint64(nil), want...)
 		if len(want) > op.N {
 			want = want[:op.N]
 		}
+	}
+	if wantAll == nil {
+		wantAll = want
 	}
 	got := h.f.rows(op.Row, filters...)
 	if !h.chk.Reads {
@@ -440,9 +551,61 @@ func (h *vfH) checkRows(op vfOp) {
 	}
 	h.eval(1)
 	h.cover("read:rows/" + op.Enc)
-	if !vk.EqualU64(got, want) {
-		h.fail("rows", op.Enc, h.allEff, fmt.Sprintf("rows(start=%d, %s col=%d rows=%v limit=%d) = %v, want %v", op.Row, op.Enc, op.Col, sel, op.N, got, want))
+	if vk.EqualU64(got, want) {
+		return
 	}
+	msg := fmt.Sprintf("rows(start=%d, %s col=%d rows=%v limit=%d) = %v, want %v", op.Row, op.Enc, op.Col, sel, op.N, got, want)
+	// Relaxed oracle: rows emptied (or only ever named) by bit-level clears may
+	// keep an empty container; a result that differs from the model only by
+	// such rows is classified separately and the run continues.
+	inAll := func(r uint64) bool {
+		for _, w := range wantAll {
+			if w == r {
+				return true
+			}
+		}
+		return false
+	}
+	ok, k := true, 0
+	for i, g := range got {
+		if i > 0 && got[i-1] >= g {
+			ok = false
+		}
+		switch {
+		case inAll(g):
+			if k >= len(wantAll) || wantAll[k] != g {
+				ok = false
+			}
+			k++
+		case h.ghost(g) && g >= op.Row && !strings.Contains(op.Enc, "col"):
+			if strings.Contains(op.Enc, "rows") {
+				if i := sort.Search(len(sel), func(i int) bool { return sel[i] >= g }); i >= len(sel) || sel[i] != g {
+					ok = false
+				}
+			}
+		default:
+			ok = false
+		}
+	}
+	if strings.Contains(op.Enc, "limit") {
+		if len(got) > op.N || (len(got) < op.N && k != len(wantAll)) {
+			ok = false
+		}
+	} else if k != len(wantAll) {
+		ok = false
+	}
+	if ok {
+		h.softFail("rows/cleared-empty-row", "", "any", msg+" (the extra rows hold no bits; they were named by bit-clearing writes)")
+		return
+	}
+	g2, w2 := make([]uint64, len(got)), make([]uint64, len(want))
+	for i, r := range got {
+		g2[i] = r * vfSW
+	}
+	for i, r := range want {
+		w2[i] = r * vfSW
+	}
+	h.fail("rows", op.Enc, h.causeOfDiff(g2, w2), msg)
 }
 
 func (h *vfH) checkForEach() {
@@ -464,7 +627,7 @@ func (h *vfH) checkForEach() {
 	if err != nil || bad != "" {
 		h.fail("forEachBit", "error", h.allEff, fmt.Sprintf("%v %s", err, bad))
 	} else if !vk.EqualU64(got, want) {
-		h.fail("forEachBit", "", h.allEff, fmt.Sprintf("forEachBit positions: %s; got %s want %s", vk.DiffU64(got, want), vk.Brief(got), vk.Brief(want)))
+		h.fail("forEachBit", "", h.causeOfDiff(got, want), fmt.Sprintf("forEachBit positions: %s; got %s want %s", vk.DiffU64(got, want), vk.Brief(got), vk.Brief(want)))
 	}
 }
 
@@ -505,7 +668,7 @@ func (h *vfH) checkExport() {
 	h.eval(1)
 	h.cover("read:export")
 	if !vk.EqualU64(got, want) {
-		h.fail("export", "", h.allEff, fmt.Sprintf("WriteTo/ReadFrom copy: %s; got %s want %s", vk.DiffU64(got, want), vk.Brief(got), vk.Brief(want)))
+		h.fail("export", "", h.causeOfDiff(got, want), fmt.Sprintf("WriteTo/ReadFrom copy: %s; got %s want %s", vk.DiffU64(got, want), vk.Brief(got), vk.Brief(want)))
 	}
 }
 
@@ -561,10 +724,11 @@ func (h *vfH) checkColRows(c uint64) {
 	want := h.m.colRows(c)
 	h.eval(1)
 	h.cover("read:colRows")
+	cause := h.lastEffCol[c]
 	if len(got) > 1 {
-		h.fail("colRows", "two-rows", h.allEff, fmt.Sprintf("column %d holds rows %v (want %v)", c, got, want))
+		h.fail("colRows", "two-rows", cause, fmt.Sprintf("column %d holds rows %v (want %v)", c, got, want))
 	} else if !vk.EqualU64(got, want) {
-		h.fail("colRows", "wrong-row", h.allEff, fmt.Sprintf("column %d holds rows %v, want %v", c, got, want))
+		h.fail("colRows", "wrong-row", cause, fmt.Sprintf("column %d holds rows %v, want %v (last write wins; inside a batch the last occurrence)", c, got, want))
 	}
 }
 
@@ -601,25 +765,40 @@ func (h *vfH) checkBlocks(when string) {
 		}
 		return true
 	}
-	if cmp(got, "blocks") {
-		// cross-check: checksums computed from scratch by the real code
+	// strict oracle first, silently; on a mismatch decide which statement failed:
+	// the cached checksum is stale (fresh recomputation by the real code agrees
+	// with the model) or the stored bits themselves differ from the model.
+	probeCmp := func(bl []FragmentBlock) bool {
+		ok := len(bl) == len(ids)
+		for i := 0; ok && i < len(bl); i++ {
+			ok = bl[i].ID == ids[i] && bytes.Equal(bl[i].Checksum, sums[i])
+		}
+		return ok
+	}
+	if probeCmp(got) {
 		h.f.InvalidateChecksums()
 		h.eval(1)
-		cmp(h.f.Blocks(), "blocks-fresh")
+		cmp(h.f.Blocks(), "blocks-content") // cross-check: checksums computed from scratch by the real code
+	} else {
+		h.f.InvalidateChecksums()
+		fresh := h.f.Blocks()
+		if probeCmp(fresh) {
+			cmp(got, "blocks-stale")
+		} else {
+			cmp(fresh, "blocks-content")
+		}
 	}
 	h.blockEff = map[int]map[string]struct{}{}
 }
 
+// causeOfBlock: the write that last changed the block in the model (a write
+// that invalidates the cached checksum correctly cannot leave it stale, so the
+// last one is the candidate).
 func (h *vfH) causeOfBlock(b int) string {
-	var ds []string
-	for d := range h.blockEff[b] {
-		ds = append(ds, d)
+	if d := h.blockLast[b]; d != "" {
+		return d
 	}
-	sort.Strings(ds)
-	if len(ds) == 0 {
-		return "none"
-	}
-	return strings.Join(ds, "+")
+	return "none"
 }
 
 // checkTop: fragment.top with explicit ids (always) or unrestricted.
@@ -645,9 +824,9 @@ func (h *vfH) checkTop(op vfOp) {
 		}
 		return n
 	}
-	evicted := "fits-always"
-	if h.maxRows > int(h.cfg.CacheSize) {
-		evicted = "had-more-rows-than-slots"
+	evicted := "named-rows-fit"
+	if len(h.named) > int(h.cfg.CacheSize) {
+		evicted = "named-rows-exceeded-slots"
 	}
 	if len(op.Rows) > 0 {
 		opt.RowIDs = append([]uint64(nil), op.Rows...)
@@ -657,26 +836,32 @@ func (h *vfH) checkTop(op vfOp) {
 		}
 		h.eval(1)
 		h.cover("read:top-ids/" + h.cfg.CacheType)
+		if evicted != "named-rows-fit" {
+			h.cover("top:ids-after-more-rows-than-slots")
+		}
+		if src != nil {
+			h.cover("top:src")
+		}
 		if err != nil {
-			h.fail("top-ids", "error", h.allEff, err.Error())
+			h.fail("top-ids", h.cfg.CacheType+"/error", h.allEff, err.Error())
 			return
 		}
 		seen := map[uint64]bool{}
 		for _, p := range pairs {
 			cause := h.lastEff[p.ID]
 			if seen[p.ID] {
-				h.fail("top-ids", "dup", cause, fmt.Sprintf("top(ids=%v) lists row %d twice: %v", op.Rows, p.ID, pairs))
+				h.fail("top-ids", h.cfg.CacheType+"/dup", cause, fmt.Sprintf("top(ids=%v) lists row %d twice: %v", op.Rows, p.ID, pairs))
 				return
 			}
 			seen[p.ID] = true
 			if want := count(p.ID); p.Count != want {
-				h.fail("top-ids", op.Enc+"/"+h.cfg.CacheType+"/"+evicted, cause, fmt.Sprintf("top(ids=%v src=%v thr=%d) reports row %d count %d, true count %d (all pairs %v)", op.Rows, op.Cols, op.Thr, p.ID, p.Count, want, pairs))
+				h.fail("top-ids", h.cfg.CacheType+"/"+evicted, cause, fmt.Sprintf("top(ids=%v src=%v thr=%d) reports row %d count %d, true count %d (all pairs %v)", op.Rows, op.Cols, op.Thr, p.ID, p.Count, want, pairs))
 				return
 			}
 		}
 		for _, r := range op.Rows {
 			if n := count(r); n > 0 && n >= op.Thr && !seen[r] {
-				h.fail("top-ids-missing", op.Enc+"/"+h.cfg.CacheType+"/"+evicted, h.lastEff[r], fmt.Sprintf("top(ids=%v src=%v thr=%d) omits row %d with count %d (pairs %v)", op.Rows, op.Cols, op.Thr, r, n, pairs))
+				h.fail("top-ids-missing", h.cfg.CacheType+"/"+evicted, h.lastEff[r], fmt.Sprintf("top(ids=%v src=%v thr=%d) omits row %d with count %d (pairs %v)", op.Rows, op.Cols, op.Thr, r, n, pairs))
 				return
 			}
 		}
@@ -690,11 +875,12 @@ func (h *vfH) checkTop(op vfOp) {
 	}
 	h.eval(1)
 	h.cover("read:top-n/" + h.cfg.CacheType)
+	h.cover("top:n-asserted")
 	if err != nil {
-		h.fail("top-n", "error", h.allEff, err.Error())
+		h.fail("top-n", h.cfg.CacheType+"/error", h.allEff, err.Error())
 		return
 	}
-	qual := op.Enc + "/" + h.cfg.CacheType + "/" + evicted
+	qual := h.cfg.CacheType + "/" + evicted
 	var wantCounts []uint64
 	for _, r := range h.m.rowIDs() {
 		if n := count(r); n > 0 && n >= op.Thr {
@@ -706,17 +892,27 @@ func (h *vfH) checkTop(op vfOp) {
 		wantCounts = wantCounts[:op.N]
 	}
 	desc := fmt.Sprintf("top(n=%d src=%v thr=%d) after RecalculateCache = %v; model counts %v", op.N, op.Cols, op.Thr, pairs, h.modelCounts(count))
-	if len(pairs) != len(wantCounts) {
-		h.fail("top-n", qual, h.allEff, "wrong number of rows: "+desc)
-		return
-	}
+	// every reported pair must be exact (the cause is the write that last changed THAT row)
 	seen := map[uint64]bool{}
-	for i, p := range pairs {
+	for _, p := range pairs {
 		if seen[p.ID] || p.Count != count(p.ID) {
 			h.fail("top-n", qual, h.lastEff[p.ID], fmt.Sprintf("row %d reported with count %d, true count %d: %s", p.ID, p.Count, count(p.ID), desc))
 			return
 		}
 		seen[p.ID] = true
+	}
+	if len(pairs) != len(wantCounts) {
+		cause := h.allEff
+		for _, r := range h.m.rowIDs() { // the first non-empty row that is not reported
+			if !seen[r] && count(r) >= op.Thr {
+				cause = h.lastEff[r]
+				break
+			}
+		}
+		h.fail("top-n", qual, cause, "wrong number of rows: "+desc)
+		return
+	}
+	for i, p := range pairs {
 		if p.Count != wantCounts[i] {
 			h.fail("top-n", qual, h.allEff, fmt.Sprintf("position %d has count %d, want %d (largest counts, non-increasing): %s", i, p.Count, wantCounts[i], desc))
 			return
@@ -868,6 +1064,17 @@ func (h *vfH) changedCheck(name string, prev string, got, want bool, err error, 
 
 func (h *vfH) apply(op vfOp) {
 	f := h.f
+	if vfIsWrite(op.K) {
+		switch op.K {
+		case "bulkImport", "importRoaring":
+			for _, r := range op.Rows {
+				h.named[r] = true
+			}
+		case "setValue", "importValue":
+		default:
+			h.named[op.Row] = true
+		}
+	}
 	switch op.K {
 	case "setBit":
 		desc := "setBit" + h.kindSuffix()
@@ -888,12 +1095,17 @@ func (h *vfH) apply(op vfOp) {
 		got, err := f.clearBit(op.Row, h.abs(op.Col))
 		h.changedCheck("clearBit", prev, got, want, err, op.String())
 	case "setRow":
-		for _, c := range h.m.rowCols(op.Row) {
-			h.mclear(op.Row, c, "setRow")
+		desc := "setRow"
+		if len(op.Cols) == 0 {
+			desc = "setRow/no-segment-for-shard"
 		}
+		for _, c := range h.m.rowCols(op.Row) {
+			h.mclear(op.Row, c, desc)
+		}
+		delete(h.clearedRows, op.Row) // setRow replaces the row's containers
 		var abs []uint64
 		for _, c := range op.Cols {
-			h.mset(op.Row, c, "setRow")
+			h.mset(op.Row, c, desc)
 			abs = append(abs, h.abs(c))
 		}
 		if op.Other {
@@ -906,18 +1118,32 @@ func (h *vfH) apply(op vfOp) {
 	case "clearRow":
 		prev := h.lastEff[op.Row]
 		want := false
+		ghost := h.ghost(op.Row)
 		for _, c := range h.m.rowCols(op.Row) {
 			h.mclear(op.Row, c, "clearRow")
 			want = true
 		}
 		got, err := f.clearRow(op.Row)
-		h.changedCheck("clearRow", prev, got, want, err, op.String())
+		delete(h.clearedRows, op.Row) // clearRow removes the row's containers
+		if err == nil && ghost && got && !want {
+			if h.chk.Changed {
+				h.eval(1)
+				h.softFail("changed/cleared-empty-row", "", "any", op.String()+" returned changed=true for a row that holds no bits (it was named by bit-clearing writes before)")
+			}
+		} else {
+			h.changedCheck("clearRow", prev, got, want, err, op.String())
+		}
 	case "bulkImport":
 		desc := "bulkImport/set"
 		if op.Clear {
 			desc = "bulkImport/clear"
 		} else {
 			desc += h.kindSuffix()
+			if h.kindSuffix() != "" {
+				bc := h.batchClass(op)
+				h.cover("batch:" + bc)
+				desc += "[" + bc + "]"
+			}
 		}
 		abs := make([]uint64, len(op.Cols))
 		for i, c := range op.Cols {
@@ -952,9 +1178,6 @@ func (h *vfH) apply(op vfOp) {
 		desc := "importValue/snapshot-path"
 		if small {
 			desc = "importValue/oplog-path"
-		}
-		if op.Clear {
-			desc += "/clear"
 		}
 		h.cover("path:" + desc)
 		vals := append([]int64(nil), op.Vals...)
@@ -1074,6 +1297,45 @@ func (h *vfH) apply(op vfOp) {
 	}
 }
 
+// batchClass classifies a mutex/bool set-batch by input-only facts: does it
+// repeat a column with conflicting rows, and how does the LAST occurrence
+// compare with the row the column holds before the batch.
+func (h *vfH) batchClass(op vfOp) string {
+	rowsOf := map[uint64][]uint64{}
+	for i, c := range op.Cols {
+		rowsOf[c] = append(rowsOf[c], op.Rows[i])
+	}
+	best := 0
+	names := []string{"no-repeat", "repeat-same-row", "repeat-conflict/column-empty", "repeat-conflict/last-differs-from-stored", "repeat-conflict/last-equals-stored"}
+	for c, rs := range rowsOf {
+		if len(rs) < 2 {
+			continue
+		}
+		conflict := false
+		for _, r := range rs {
+			if r != rs[0] {
+				conflict = true
+			}
+		}
+		k := 1
+		if conflict {
+			cur := h.m.colRows(c)
+			switch {
+			case len(cur) == 0:
+				k = 2
+			case cur[0] == rs[len(rs)-1]:
+				k = 4
+			default:
+				k = 3
+			}
+		}
+		if k > best {
+			best = k
+		}
+	}
+	return names[best]
+}
+
 // msetValue applies the BSI encoding of v at column c to the model. clear=true
 // follows fragment.positionsForValue/importSetValue: exists and sign cleared,
 // magnitude bits written as given.
@@ -1107,41 +1369,16 @@ func (h *vfH) msetValue(c uint64, v int64, clear bool, desc string) (changed boo
 // vfRun executes one history on a fresh file-backed fragment and returns the
 // first disagreement (nil if none). rec != nil records evaluations/coverage.
 func vfRun(cfg vfCfg, ops []vfOp, chk vfChecks, rec *vk.Run) (issue *vfIssue, evals int) {
-	dir := os.Getenv("VERIF_SCRATCH")
-	if dir == "" {
-		dir = os.TempDir()
-	}
-	h := &vfH{cfg: cfg, chk: chk, m: newVFModel(), rec: rec,
-		path:    filepath.Join(dir, fmt.Sprintf("frag-%d-%d", os.Getpid(), atomic.AddUint64(&vfSeq, 1))),
-		lastEff: map[uint64]string{}, blockEff: map[int]map[string]struct{}{}}
-	if cfg.BG {
-		h.q = newSnapshotQueue(1, 1, logger.NopLogger)
-	}
+	h := newVFH(cfg, chk, rec)
 	defer func() {
 		if e := recover(); e != nil {
-			st := string(debug.Stack())
-			if len(st) > 2500 {
-				st = st[:2500]
-			}
 			k := "open"
 			if h.at < len(ops) {
 				k = ops[h.at].K
 			}
-			h.issue = &vfIssue{Check: "panic", Qual: k, Cause: h.allEffOr(), Msg: fmt.Sprintf("panic: %v\n%s", e, st), At: h.at}
-			issue = h.issue
+			issue = h.panicIssue(e, k)
 		}
-		if h.f != nil {
-			func() {
-				defer func() { recover() }()
-				h.f.Close()
-			}()
-		}
-		if h.q != nil {
-			close(h.q)
-		}
-		os.Remove(h.path)
-		os.Remove(h.path + cacheExt)
-		os.Remove(h.path + snapshotExt)
+		h.close()
 		evals = h.evals
 	}()
 	if err := h.open(); err != nil {
@@ -1157,7 +1394,48 @@ func vfRun(cfg vfCfg, ops []vfOp, chk vfChecks, rec *vk.Run) (issue *vfIssue, ev
 	}
 	h.at = len(ops)
 	h.full()
+	if h.issue == nil {
+		return h.soft, h.evals
+	}
 	return h.issue, h.evals
+}
+
+// newVFH prepares a run (fragment not yet opened).
+func newVFH(cfg vfCfg, chk vfChecks, rec *vk.Run) *vfH {
+	h := &vfH{cfg: cfg, chk: chk, m: newVFModel(), rec: rec,
+		path:    filepath.Join(vfScratch(), fmt.Sprintf("frag-%d-%d", os.Getpid(), atomic.AddUint64(&vfSeq, 1))),
+		lastEff: map[uint64]string{}, blockEff: map[int]map[string]struct{}{}, clearedRows: map[uint64]bool{}, blockLast: map[int]string{}, lastEffCol: map[uint64]string{}, named: map[uint64]bool{}}
+	if cfg.BG {
+		h.q = newSnapshotQueue(1, 1, logger.NopLogger)
+	}
+	return h
+}
+
+func (h *vfH) panicIssue(e interface{}, opKind string) *vfIssue {
+	st := string(debug.Stack())
+	if len(st) > 2500 {
+		st = st[:2500]
+	}
+	h.issue = &vfIssue{Check: "panic", Qual: opKind, Cause: h.allEffOr(), Msg: fmt.Sprintf("panic: %v\n%s", e, st), At: h.at}
+	return h.issue
+}
+
+// close closes the fragment, stops the snapshot worker and removes the files.
+func (h *vfH) close() {
+	if h.f != nil {
+		func() {
+			defer func() { recover() }()
+			h.f.Close()
+		}()
+		h.f = nil
+	}
+	if h.q != nil {
+		close(h.q)
+		h.q = nil
+	}
+	os.Remove(h.path)
+	os.Remove(h.path + cacheExt)
+	os.Remove(h.path + snapshotExt)
 }
 
 func (h *vfH) allEffOr() string {
@@ -1167,30 +1445,58 @@ func (h *vfH) allEffOr() string {
 	return h.allEff
 }
 
-// vfShrink greedily removes ops while the history still fails with the same
-// check kind. Returns the minimal history found and its issue.
+// vfFamily groups checks that observe the same thing (stored contents), so the
+// shrinker may keep a candidate whose first failing read is a different read of
+// the same wrong contents.
+func vfFamily(check string) string {
+	switch check {
+	case "row", "row.Count", "bit", "colRows", "rows", "forEachBit", "export", "value", "blocks-content":
+		return "contents"
+	}
+	return check
+}
+
+// vfShrink minimises a failing history by delta debugging (complement removal
+// with shrinking chunk size) while it still fails the same check. Returns the
+// 1-minimal history found (within budget) and its issue.
 func vfShrink(cfg vfCfg, ops []vfOp, chk vfChecks, first *vfIssue, budget int) ([]vfOp, *vfIssue) {
 	cur := append([]vfOp(nil), ops...)
 	if first.At+1 < len(cur) {
 		cur = cur[:first.At+1]
 	}
 	best := first
-	if is, _ := vfRun(cfg, cur, chk, nil); is != nil && is.Check == first.Check {
+	if is, _ := vfRun(cfg, cur, chk, nil); is != nil && vfFamily(is.Check) == vfFamily(first.Check) {
 		best = is
 	} else {
-		return ops, first // not reproducible after truncation (schedule dependent): keep the original
+		return ops, first // not reproducible (schedule dependent): keep the original
 	}
-	for pass := 0; pass < 3 && budget > 0; pass++ {
+	n := 2
+	for len(cur) > 0 && budget > 0 {
+		chunk := (len(cur) + n - 1) / n
 		removed := false
-		for i := len(cur) - 1; i >= 0 && budget > 0; i-- {
-			cand := append(append([]vfOp(nil), cur[:i]...), cur[i+1:]...)
+		for start := 0; start < len(cur) && budget > 0; start += chunk {
+			end := start + chunk
+			if end > len(cur) {
+				end = len(cur)
+			}
+			cand := append(append([]vfOp(nil), cur[:start]...), cur[end:]...)
 			budget--
-			if is, _ := vfRun(cfg, cand, chk, nil); is != nil && is.Check == first.Check {
+			if is, _ := vfRun(cfg, cand, chk, nil); is != nil && vfFamily(is.Check) == vfFamily(first.Check) {
 				cur, best, removed = cand, is, true
+				if n > 2 {
+					n--
+				}
+				break
 			}
 		}
 		if !removed {
-			break
+			if chunk <= 1 {
+				break
+			}
+			n *= 2
+			if n > len(cur) {
+				n = len(cur)
+			}
 		}
 	}
 	return cur, best
@@ -1211,10 +1517,12 @@ func vfOpsStrings(ops []vfOp) []string {
 	return out
 }
 
-// vfReport shrinks a failing history, derives the signature from the minimal
-// history (input only) and records the failure.
+// vfReport records a failure. The failing history is first minimised; the
+// signature is derived from the MINIMAL history (input) and the oracle that
+// failed: <write that last changed the misread row/block in the model> ->
+// <check>[qualifier]@<fragment kind>.
 func vfReport(r *vk.Run, id string, cfg vfCfg, ops []vfOp, chk vfChecks, is *vfIssue) {
-	min, mis := vfShrink(cfg, ops, chk, is, 160)
+	min, mis := vfShrink(cfg, ops, chk, is, 120)
 	at := "final read battery"
 	if mis.At < len(min) {
 		at = fmt.Sprintf("op %d: %s", mis.At, min[mis.At].String())
@@ -1223,7 +1531,23 @@ func vfReport(r *vk.Run, id string, cfg vfCfg, ops []vfOp, chk vfChecks, is *vfI
 	if len(ops) <= 60 {
 		w.Original = vfOpsStrings(ops)
 	}
-	r.Fail(mis.sig(cfg), id, mis.Msg, w)
+	r.Count("shrunk-histories", 1)
+	vfFailOnce(r, mis.sig(cfg), id, mis.Msg, w)
+}
+
+var vfSeenSig = map[string]int{}
+
+// vfFailOnce passes the first failure of each signature (per worker process) to
+// the kit with its witness and only counts the later ones: the kit keeps at
+// most 40 failures per worker and the driver classifies kept failures only, so
+// a frequent known signature must not crowd out a rare new one.
+func vfFailOnce(r *vk.Run, sig, id, msg string, w interface{}) {
+	vfSeenSig[sig]++
+	if vfSeenSig[sig] == 1 {
+		r.Fail(sig, id, msg, w)
+		return
+	}
+	r.Count("failures-repeat:"+sig, 1)
 }
 
 // ---------------------------------------------------------------- generator
@@ -1235,6 +1559,10 @@ var (
 )
 
 type vfGen struct {
+	NoEmptySetRow bool // never issue setRow with an empty Row (keeps the C07 no-segment defect out of other properties' histories)
+	AlwaysChk bool // read the touched rows/columns back after every write
+	Conflicts bool // mutex/bool set-batches may repeat a column with conflicting rows (C13)
+
 	rng  *vk.Rand
 	cfg  vfCfg
 	rows []uint64
@@ -1333,7 +1661,7 @@ func (g *vfGen) pairs(distinctCols bool) (rows, cols []uint64) {
 	for _, c := range cs {
 		rows = append(rows, g.row())
 		cols = append(cols, c)
-		if !distinctCols && g.rng.Chance(1, 3) {
+		for k := 0; k < 2 && !distinctCols && g.rng.Chance(2, 5); k++ {
 			rows = append(rows, g.row())
 			cols = append(cols, c)
 		}
@@ -1359,7 +1687,7 @@ func (g *vfGen) op() vfOp {
 		}
 		x -= w.W
 	}
-	chk := g.rng.Chance(1, 3)
+	chk := g.rng.Chance(1, 3) || g.AlwaysChk
 	mutexLike := g.cfg.Kind == "mutex" || g.cfg.Kind == "bool"
 	switch k {
 	case "setBit", "clearBit", "bit":
@@ -1368,13 +1696,13 @@ func (g *vfGen) op() vfOp {
 		return vfOp{K: k, Row: g.row(), Chk: chk}
 	case "setRow":
 		o := vfOp{K: k, Row: g.row(), Chk: chk, Other: g.rng.Chance(1, 4)}
-		if !g.rng.Chance(1, 6) {
+		if g.NoEmptySetRow || !g.rng.Chance(1, 6) {
 			o.Cols = g.cols(true)
 		}
 		return o
 	case "bulkImport-set", "bulkImport-clear":
 		o := vfOp{K: "bulkImport", Clear: k == "bulkImport-clear", Chk: chk}
-		o.Rows, o.Cols = g.pairs(mutexLike && !o.Clear)
+		o.Rows, o.Cols = g.pairs(mutexLike && !o.Clear && !g.Conflicts)
 		return o
 	case "importRoaring-set", "importRoaring-clear":
 		o := vfOp{K: "importRoaring", Clear: k == "importRoaring-clear", Chk: chk}
@@ -1423,12 +1751,14 @@ func (g *vfGen) op() vfOp {
 		} else {
 			o.N = g.rng.Intn(len(g.rows) + 2)
 		}
-		if g.rng.Chance(1, 3) {
-			o.Enc = "src"
-			o.Cols = g.cols(false)
-		}
-		if g.rng.Chance(1, 5) {
-			o.Thr = uint64(1 + g.rng.Intn(3))
+		if len(o.Rows) > 0 { // filter row and threshold only with explicit ids (the unrestricted clause of the property names neither)
+			if g.rng.Chance(1, 3) {
+				o.Enc = "src"
+				o.Cols = g.cols(false)
+			}
+			if g.rng.Chance(1, 5) {
+				o.Thr = uint64(1 + g.rng.Intn(3))
+			}
 		}
 		return o
 	}
